@@ -73,7 +73,13 @@ pub fn alpha_pick(rng: &mut Rng) -> f64 {
 pub fn run(ctx: &mut Ctx) {
     let n = ctx.n(2560, 100000);
     ctx.run_cases("spectrum", n, false, |ctx, rng, idx| {
-        let order = if idx % 8 == 0 { *rng.pick(&[2usize, 3, 40, 41]) } else { rng.range(2, 41) };
+        let order = if idx % 8 == 0 {
+            *rng.pick(&[2usize, 3, 40, 41])
+        } else if idx % 16 == 3 {
+            rng.range(30, 41)
+        } else {
+            rng.range(2, 41)
+        };
         let alpha = alpha_pick(rng);
         let rate = rate_pick(rng, idx);
         let target = if rng.chance(0.2) { 2.0 } else { rng.uniform(0.05, 2.0) };
@@ -113,6 +119,22 @@ pub fn run(ctx: &mut Ctx) {
             if idx % 16 == 9 && order >= 3 {
                 let k = *rng.pick(&[1usize, 1, 2, order - 1]);
                 c[k] = 0.0;
+            }
+            c
+        };
+        // a long tail of tiny terms of one sign (each far below audibility, together several
+        // hundredths of a neper), alone or under one dominant first-order term
+        let c = {
+            let mut c = c;
+            if idx % 16 == 3 {
+                let sign = if rng.chance(0.5) { 1.0 } else { -1.0 };
+                let tiny = *rng.pick(&[0.0009, 0.0017, 0.0004, 0.00095]);
+                for x in c.iter_mut().skip(1) {
+                    *x = sign * tiny * rng.uniform(0.9, 1.0);
+                }
+                if rng.chance(0.5) {
+                    c[1] = rng.uniform(0.5, 1.9) * if rng.chance(0.5) { 1.0 } else { -1.0 };
+                }
             }
             c
         };
